@@ -204,6 +204,7 @@ static void s_once(const plan_t *p)
     nstr = (int)p->cfg[CF_NS]; if (nstr < 2) nstr = 2; if (nstr > NS) nstr = NS;
     maxlen = (size_t)p->cfg[CF_MAXLEN]; if (maxlen < 4) maxlen = 4; if (maxlen > MAXS - 32) maxlen = MAXS - 32;
     maxreach = 0;
+    memset(ns, (int)(unsigned char)p->cfg[CF_JUNK], sizeof ns); memset(ws, (int)(unsigned char)p->cfg[CF_JUNK], sizeof ws);
     for (i = 0; i < NS; i++) {
         cstl_string_init(&ns[i]); cstl_wstring_init(&ws[i]);
         mn[i].n = 0; mw[i].n = 0;
